@@ -319,7 +319,13 @@ class Parser:
                     shorthand=True,
                 )
             elif stream.current.kind == TOKEN_SLICE_START:
-                yield self.parse_slice(stream)
+                # A slice outside of brackets. Keep it in a selector list of its
+                # own, so its string form is bracketed and can't run into the
+                # string form of a neighbouring slice.
+                tok = stream.current
+                yield ListSelector(
+                    env=self.env, token=tok, items=[self.parse_slice(stream)]
+                )
             elif stream.current.kind == TOKEN_WILD:
                 yield WildSelector(
                     env=self.env,
